@@ -202,7 +202,7 @@ class Parser:
                 if depth == 0:
                     break
                 depth -= 1
-            elif p in ('=', ';', ',', '{') and depth == 0:
+            elif p in ('=', ';', ',', '{', '|') and depth == 0:
                 break
             self.i += 1
         return ' '.join(x[1] for x in self.t[start:self.i])
@@ -285,7 +285,13 @@ class Parser:
         lhs = self.parse_unary()
         while True:
             op = self.peek()
-            if op in BINPREC and BINPREC[op] > prec:
+            if op in ('..', '..=') and prec < 0.5:
+                self.eat()
+                if self.peek() in (']', ')', '}', ',', ';', '{'):
+                    lhs = ('bin', op, lhs, None)
+                else:
+                    lhs = ('bin', op, lhs, self.parse_expr(0.5))
+            elif op in BINPREC and BINPREC[op] > prec:
                 # `<` could be generics only after `::`, which parse_postfix handles
                 self.eat()
                 rhs = self.parse_expr(BINPREC[op])
@@ -452,13 +458,38 @@ class Parser:
                     guard = self.parse_expr()
                 self.eat('=>')
                 body = self.parse_expr()
+                if self.peek() in ('=', '+=', '-=', '*=', '/='):
+                    # an assignment as the body of an arm: `Pat => x.f = e,`
+                    op = self.eat()
+                    body = ('assignexpr', op, body, self.parse_expr())
                 if self.peek() == ',':
                     self.eat()
                 arms.append((pat, guard, body))
             self.eat('}')
             return ('match', scrut, arms)
-        if p == '|' or p == '||' or p == 'move':
-            raise Unparsed("closure")
+        if p == 'move' and self.peek(1) in ('|', '||'):
+            self.eat()
+            p = self.peek()
+        if p == '||':
+            self.eat()
+            return ('closure', [], self.parse_expr())
+        if p == '|':
+            # closure with simple parameters `|a, &b, (c, d)|` (patterns, optional `: type` skipped)
+            self.eat('|')
+            params = []
+            while self.peek() != '|':
+                params.append(self.parse_pattern1())
+                if self.peek() == ':':
+                    self.eat(':')
+                    self.skip_type()
+                if self.peek() == ',':
+                    self.eat()
+            self.eat('|')
+            saved = self.no_struct
+            self.no_struct = 0
+            body = self.parse_expr()
+            self.no_struct = saved
+            return ('closure', params, body)
         if p == 'return':
             self.eat()
             if self.peek() in (';', '}'):
@@ -567,8 +598,39 @@ class Parser:
                 init = self.parse_expr()
             self.eat(';')
             return ('let', mut, pat, ty, init)
-        if p in ('for', 'while', 'loop'):
-            raise Unparsed("loop statement")
+        if p == 'fn' and self.peekkind(1) == 'id':
+            # nested function item
+            self.eat('fn')
+            name = self.eat()
+            self.eat('(')
+            start = self.i
+            end = find_matching(self.t, self.i - 1, '(', ')')
+            params = self.t[start:end]
+            self.i = end + 1
+            while self.peek() != '{':
+                self.i += 1
+            body = self.parse_block()
+            return ('fn', name, params, body)
+        if p == 'for':
+            self.eat('for')
+            pat = self.parse_pattern()
+            self.eat('in')
+            self.no_struct += 1
+            it = self.parse_expr()
+            self.no_struct -= 1
+            body = self.parse_block()
+            return ('for', pat, it, body)
+        if p == 'while' and self.peek(1) != 'let':
+            self.eat('while')
+            self.no_struct += 1
+            c = self.parse_expr()
+            self.no_struct -= 1
+            return ('while', c, self.parse_block())
+        if p == 'loop':
+            self.eat('loop')
+            return ('loop', self.parse_block())
+        if p == 'while':
+            raise Unparsed("while-let statement")
         e = self.parse_expr()
         q = self.peek()
         if q in ('=', '+=', '-=', '*=', '/='):
